@@ -10,9 +10,9 @@ import (
 // Strings is a pool of adversarial JSON string literals (valid and invalid).
 var Strings = []string{
 	`""`, `"a"`, `"b"`, `"ab"`, `"A"`, `"a"`, `"A"`, `"<&>"`, `" "`, `"\/"`, `"/"`, `"~0~1"`,
-	`"😀"`, `"😀"`, `"😀"`, `"😀"`, `"\ud800"`, `"\udc00"`, `"\ud800\ud800"`, `"\ud800x"`,
+	`"😀"`, `"\ud83d\ude00"`, `"\uD83D\uDE00"`, `"\ud83D\uDe00"`, `"\uD83d\udE00"`, `"\ud800"`, `"\udc00"`, `"\ud800\ud800"`, `"\ud800x"`,
 	"\"\xff\"", "\"\xc3\"", "\"\xe2\x80\"", "\"\xed\xa0\x80\"", "\"\xf4\x90\x80\x80\"", "\"\xc0\x80\"",
-	`"\n"`, `"\u000a"`, `"\u001F"`, `"\u001f"`, `"é"`, `"é"`, `"é"`, "\" \"", `" "`, "\" \"",
+	`"\n"`, `"\u000a"`, `"\u001F"`, `"\u001f"`, `"é"`, `"\u00e9"`, `"\u00E9"`, "\" \"", `"\u2028"`, `"\u2029"`, "\" \"",
 	`"\""`, `"\\"`, `"\b\f\n\r\t"`, `"\x"`, `"\u12"`, `"\u12G4"`, "\"\x00\"", "\"\x1f\"", "\"\t\"", `"abc`, `"\`, `"\u`,
 	"\"￿\"", "\"\U0010ffff\"", "\"퟿\"", "\"\"", `"key"`, `"Key"`, `"k_e-y"`,
 }
